@@ -366,3 +366,62 @@ theorem mapE_total {α β : Type} {f : α → Except Fault β} (hf : ∀ a, ∃ 
     exact ⟨b :: bs, by simp [mapE, hb, hbs, bind, Except.bind, pure, Except.pure]⟩
 
 end GeomV.C13
+
+namespace GeomV.C13
+
+/-! ### more fuel never changes an answer -/
+
+theorem jLoop_mono {c : Path} {others : List Path} {tol : Rat} :
+    ∀ f s r, jLoop c others tol f s = .ok r → jLoop c others tol (f + 1) s = .ok r := by
+  intro f
+  induction f with
+  | zero => intro s r h; simp [jLoop] at h
+  | succ f ih =>
+    intro s r h
+    unfold jLoop at h ⊢
+    by_cases hj : s.j ≤ c.length
+    · simp only [hj, if_true] at h ⊢
+      cases hb : jBody c others tol s with
+      | error e => simp [hb, bind, Except.bind] at h
+      | ok s1 =>
+        simp only [hb, bind, Except.bind] at h ⊢
+        exact ih s1 r h
+    · simpa [hj] using h
+
+theorem outer_mono {c : Path} {others : List Path} {tol : Rat} :
+    ∀ f i out r, outer c others tol f i out = .ok r → outer c others tol (f + 1) i out = .ok r := by
+  intro f
+  induction f with
+  | zero => intro i out r h; simp [outer] at h
+  | succ f ih =>
+    intro i out r h
+    unfold outer at h ⊢
+    cases hp : idx c i with
+    | error e => simp [hp, bind, Except.bind] at h
+    | ok p =>
+      simp only [hp, bind, Except.bind] at h ⊢
+      cases hl : jLoop c others tol f ⟨i, i + 2, out ++ [p], false⟩ with
+      | error e => simp [hl] at h
+      | ok s =>
+        simp only [hl] at h
+        rw [jLoop_mono f _ s hl]
+        by_cases hd : s.done = true
+        · simpa [hd] using h
+        · simp only [hd] at h ⊢
+          exact ih _ _ _ h
+
+theorem simplifyCurveF_mono {c : Path} {others : List Path} {tol : Rat} {f : Nat} {r : Path}
+    (h : simplifyCurveF f c others tol = .ok r) : ∀ k, simplifyCurveF (f + k) c others tol = .ok r := by
+  intro k
+  induction k with
+  | zero => exact h
+  | succ k ih =>
+    unfold simplifyCurveF at ih ⊢
+    by_cases h0 : c.length = 0
+    · simpa [h0] using ih
+    · by_cases h3 : c.length < 3
+      · simpa [h0, h3] using ih
+      · simp only [h0, h3, if_false] at ih ⊢
+        exact outer_mono _ _ _ _ ih
+
+end GeomV.C13
